@@ -17,6 +17,7 @@ import (
 	"fmt"
 	"math/rand"
 	"strconv"
+	"strings"
 	"sync/atomic"
 	"time"
 
@@ -43,6 +44,7 @@ type awObs struct {
 	} `json:"out"`
 	Aid  map[string]int    `json:"aid"`
 	Pc   map[string]string `json:"pc"`
+	Live []bool            `json:"live"`
 	Term []int             `json:"term"`
 	Exec []int             `json:"exec"`
 	Up   bool              `json:"up"`
@@ -121,26 +123,35 @@ func replayAddWin(t []awStep, caseNo int) (f *seqFail, at int, outside bool) {
 	defer w.close()
 	seed, stream := awSeed(hlib.Seed()*1000003 + int64(caseNo)*7919)
 	rand.Seed(seed)
-	real := func(id int) uint32 { // abstract identifier -> real identifier
+	// abstract identifier -> real identifier: the identifier the adder that (per the specification) drew it last
+	// was given.  While the code conforms this is the value of the generator the specification names; the mapping does
+	// not depend on it, so an implementation that draws its identifiers elsewhere is still judged on what C16 states.
+	holder := map[int]int{}
+	rid := map[int]uint32{} // adder -> identifier seen in Activate
+	real := func(id int) uint32 {
 		if id == 1 {
 			return 1
 		}
+		if a, ok := holder[id]; ok {
+			return rid[a]
+		}
 		return stream[id-2]
 	}
-	abstract := func(rid uint32) int {
-		if rid == 1 {
+	abstract := func(r uint32) int {
+		if r == 1 {
 			return 1
 		}
 		for i, d := range stream {
-			if d == rid {
+			if d == r {
 				return i + 2
 			}
 		}
 		return -1
 	}
+	bound := true // the first draw of the behaviour was the generator's first value
+	first := true
 	impls := map[int]*awImpl{}
 	done := map[int]chan awAddRes{}
-	rid := map[int]uint32{} // adder -> identifier seen in Activate
 	counters := func() ([]int, []int) {
 		n := len(t[0].Obs.Term)
 		term, exec := make([]int, n), make([]int, n)
@@ -173,16 +184,27 @@ func replayAddWin(t []awStep, caseNo int) (f *seqFail, at int, outside bool) {
 			select {
 			case id := <-p.entered:
 				rid[s.Op.A] = id
+				holder[exp.Out.V] = s.Op.A
 				got := abstract(id)
-				if got != exp.Out.V {
-					for a, other := range rid {
-						if a != s.Op.A && other == id && prevPc[strconv.Itoa(a)] != "idle" {
-							return fail("addwin/duplicate-identifier", fmt.Sprintf("Add of instance %d was given identifier %#x (draw %d of the generator), which instance %d holds (%s); the specification expects draw %d",
-								s.Op.A, id, got-1, a, prevPc[strconv.Itoa(a)], exp.Out.V-1)), i, outside
-						}
+				if first {
+					first = false
+					bound = got == 2
+				}
+				// C16: unique among the live objects - and among the reservations, which become live objects
+				for a, other := range rid {
+					if a == s.Op.A || other != id || i == 0 || exp.Aid[strconv.Itoa(a)] == exp.Out.V {
+						continue // (the last: outside the statement the specification itself hands an identifier out twice)
 					}
-					return fail("addwin/unexpected-identifier", fmt.Sprintf("Add of instance %d activates its object under identifier %#x = draw %d of the generator (-2: not a draw), expected draw %d",
-						s.Op.A, id, got-1, exp.Out.V-1)), i, outside
+					prev := t[i-1].Obs
+					if prev.Pc[strconv.Itoa(a)] == "reserved" || (a-1 < len(prev.Live) && prev.Live[a-1]) {
+						return fail("addwin/duplicate-identifier", fmt.Sprintf("Add of instance %d was given identifier %#x, which instance %d holds (%s, live %v)",
+							s.Op.A, id, a, prev.Pc[strconv.Itoa(a)], prev.Live[a-1])), i, outside
+					}
+				}
+				if bound && got != exp.Out.V {
+					// not a demand of C16: the code draws more or fewer values than the specification says
+					return fail("addwin/outside/unexpected-draw", fmt.Sprintf("Add of instance %d activates its object under identifier %#x = draw %d of the generator (-2: not a draw), the specification expects draw %d",
+						s.Op.A, id, got-1, exp.Out.V-1)), i, true
 				}
 			case r := <-ch:
 				return fail("addwin/add-returned-without-activation", fmt.Sprintf("Add of instance %d returned (%#x, %v) without activating the object", s.Op.A, r.id, r.err)), i, outside
@@ -288,8 +310,14 @@ func replayAddWin(t []awStep, caseNo int) (f *seqFail, at int, outside bool) {
 			}
 		}
 	}
+	if !bound {
+		awUnbound++
+	}
 	return nil, 0, outside
 }
+
+// behaviours whose first identifier was not the generator's first value: the collisions cannot be forced
+var awUnbound int
 
 func loadAddWinTests(path string) [][]awStep {
 	var tests [][]awStep
@@ -351,7 +379,7 @@ func cmdAddWinChild(args []string) {
 		}
 		if f != nil {
 			class := f.class
-			if outside {
+			if outside && !strings.HasPrefix(class, "addwin/outside/") {
 				class = "addwin/outside/" + class[len("addwin/"):]
 			}
 			out.Fail(class, f.detail, map[string]interface{}{"ops": awOps(t), "step": at, "expected": t[at].Obs})
@@ -371,5 +399,6 @@ func cmdAddWinChild(args []string) {
 	out.Extra("steps", float64(steps))
 	out.Extra("behaviours_with_a_colliding_draw", float64(collisions))
 	out.Extra("behaviours_leaving_the_statement", float64(outsideN))
+	out.Extra("behaviours_generator_not_bound", float64(awUnbound))
 	out.End()
 }
